@@ -81,9 +81,11 @@ package par1
 //@   modifies nothing
 //@   ensures result == md5(bytes(data[:min(len(data), 16384)]))
 
+// A PAR1 name must be its own base name (no separator), so its target is directly in the index file's directory.
 //@ func (*Decoder).getFilePath
 //@   props C13 C19 C15
 //@   modifies nothing
+//@   ensures implies(result1 == nil, pathBase(entry.filename) == entry.filename && result0 == pathJoin(pathDir(d.indexFile), entry.filename))
 
 //@ func (*Decoder).volumePath
 //@   props C13 C19
@@ -151,11 +153,12 @@ package par1
 // (saved) file entry and was unusable before; a path is listed only directly after its own
 // successful write, and every successful write is listed.
 //@ func (*Decoder).Repair
-//@   props C13 C19 C04 C02 C10 C14 C18
+//@   props C13 C19 C04 C02 C10 C14 C18 C15
 //@   ensures implies(gIOFailed && !old(gIOFailed), result1 != nil)
 //@   requires decoderOK(d) && d.shardByteCount >= 0 && d.shardByteCount <= 70368744177664
 //@   assert-call fileIO.WriteFile : mathint(len(arg1)) == mathint(entry.header.FileBytes) && md5(bytes(arg1)) == entry.header.Hash && md5(bytes(arg1[:min(len(arg1), 16384)])) == entry.header.SixteenKHash
 //@   assert-call fileIO.WriteFile : entry.header.Status % 2 == 1
+//@   assert-call fileIO.WriteFile : pathBase(entry.filename) == entry.filename && arg0 == pathJoin(pathDir(d.indexFile), entry.filename)
 //@   assert-call append : gLastWriteOK && gLastWritePath == path
 //@   ensures len(result0) == gWritesOK - old(gWritesOK)
 //@   loop 0
